@@ -20,9 +20,9 @@ from hypothesis import strategies as st
 RATE_LADDER = [0.05, 0.17, 0.6, 2.0, 7.0]
 
 
-def _time_axis(draw):
-    kind = draw(st.sampled_from(["uniform", "dense_early", "irregular"]))
-    n = draw(st.integers(25, 60))
+def _time_axis(draw, identifiable=False):
+    kind = draw(st.sampled_from(["uniform", "dense_early", "irregular"])) if not identifiable else "dense_early"
+    n = draw(st.integers(25, 60)) if not identifiable else draw(st.integers(50, 70))
     t0 = draw(st.sampled_from([-1.0, -0.5, -2.0]))
     t1 = draw(st.sampled_from([20.0, 40.0, 60.0]))
     if kind == "uniform":
@@ -43,7 +43,7 @@ def _spectral_axis(draw):
 
 
 @st.composite
-def kinetic_cases(draw, *, max_datasets=3, allow_full=True, allow_irf=True, identifiable=False):
+def kinetic_cases(draw, *, max_datasets=3, allow_full=True, allow_irf=True, identifiable=False, extras_allowed=True):
     n_comp = draw(st.integers(1, 3))
     comps = [f"s{i+1}" for i in range(n_comp)]
     # rates: well separated (ratio >= 3)
@@ -87,8 +87,12 @@ def kinetic_cases(draw, *, max_datasets=3, allow_full=True, allow_irf=True, iden
         extra_dataset["initial_concentration"] = "j1"
     mcs.append("mc_decay")
     irf_kind = draw(st.sampled_from(["none", "gaussian", "gaussian", "multi-gaussian", "spectral-gaussian"])) if allow_irf else "none"
+    if identifiable and irf_kind != "none":
+        irf_kind = "gaussian"
     if irf_kind != "none":
-        params["irf"] = [["center", draw(st.sampled_from([0.3, 0.0, 0.45])), {}], ["width", draw(st.sampled_from([0.1, 0.25, 0.06])), {}]]
+        # identifiable family: an IRF that the time axes resolve (the recovery clause needs a well-behaved landscape)
+        widths = [0.6, 0.9] if identifiable else [0.1, 0.25, 0.06]
+        params["irf"] = [["center", draw(st.sampled_from([0.3, 0.0, 0.45])), {}], ["width", draw(st.sampled_from(widths)), {}]]
         irf = {"type": irf_kind, "center": "irf.center", "width": "irf.width"}
         if irf_kind == "multi-gaussian":
             params["irf"] += [["center2", 0.6, {"vary": False}], ["width2", 0.3, {"vary": False}], ["scale1", 1.0, {"vary": False}], ["scale2", 0.2, {"vary": False}]]
@@ -101,7 +105,7 @@ def kinetic_cases(draw, *, max_datasets=3, allow_full=True, allow_irf=True, iden
                 irf["width_dispersion_coefficients"] = ["irf.wdisp1"]
         spec["irf"] = {"irf1": irf}
         extra_dataset["irf"] = "irf1"
-    extras = draw(st.lists(st.sampled_from(["baseline", "damped-oscillation", "coherent-artifact"]), max_size=2, unique=True))
+    extras = draw(st.lists(st.sampled_from(["baseline", "damped-oscillation", "coherent-artifact"]), max_size=2, unique=True)) if extras_allowed else []
     if "coherent-artifact" in extras and irf_kind == "none":
         extras.remove("coherent-artifact")
     for e in extras:
@@ -109,7 +113,9 @@ def kinetic_cases(draw, *, max_datasets=3, allow_full=True, allow_irf=True, iden
             spec["megacomplex"]["mc_base"] = {"type": "baseline", "dimension": "time"}
             mcs.append("mc_base")
         elif e == "damped-oscillation":
-            params["osc"] = [["freq", draw(st.sampled_from([25.0, 40.0])), {}], ["rate", draw(st.sampled_from([0.3, 0.6])), {}]]
+            # frequencies resolved by every generated time axis (largest step 2.4: period >= 11 time units), else aliasing
+            # gives exact alternative solutions and the model is not identifiable
+            params["osc"] = [["freq", draw(st.sampled_from([1.5, 3.0])), {}], ["rate", draw(st.sampled_from([0.1, 0.25])), {}]]
             spec["megacomplex"]["mc_osc"] = {"type": "damped-oscillation", "labels": ["osc1"], "frequencies": ["osc.freq"], "rates": ["osc.rate"]}
             mcs.append("mc_osc")
         else:
@@ -136,7 +142,7 @@ def kinetic_cases(draw, *, max_datasets=3, allow_full=True, allow_irf=True, iden
             dd["irf"] = f"irf{i+1}"
         spec["dataset"][lab] = dd
         same_time = i > 0 and draw(st.booleans())
-        datasets[lab] = {"time": list(datasets["dataset_1"]["time"]) if same_time else _time_axis(draw),
+        datasets[lab] = {"time": list(datasets["dataset_1"]["time"]) if same_time else _time_axis(draw, identifiable),
                          "spectral": _spectral_axis(draw) if (i == 0 or draw(st.booleans())) else None,
                          "clp_seed": draw(st.integers(0, 10**6)), "noise": 0.0, "noise_seed": draw(st.integers(0, 10**6))}
         if datasets[lab]["spectral"] is None:
